@@ -7,7 +7,7 @@ from ipaddress import IPv4Address, IPv4Network
 from typing import Any, ClassVar, Dict, List, Literal, Optional, Tuple, Union
 
 from prettytable import MARKDOWN, PrettyTable
-from pydantic import Field, validate_call
+from pydantic import Field, field_validator, validate_call
 
 from primaite.interface.request import RequestFormat, RequestResponse
 from primaite.simulator.core import RequestManager, RequestType, SimComponent
@@ -595,7 +595,15 @@ class RouteEntry(SimComponent):
     next_hop_ip_address: IPv4Address
     "The next hop IP address to which packets should be forwarded."
     metric: float = 0.0
-    "The cost metric for this route. Default is 0.0."
+    "The cost metric for this route. Default is 0.0. May be infinite (never preferred), but not NaN."
+
+    @field_validator("metric")
+    @classmethod
+    def _metric_is_a_number(cls, v: float) -> float:
+        """NaN is not a cost: it compares false with every metric, so route selection could not order the entry."""
+        if v != v:
+            raise ValueError("metric must not be NaN")
+        return v
 
     def describe_state(self) -> Dict:
         """
